@@ -350,6 +350,26 @@ fn struct_pass_program(sizes: &[usize]) -> (String, Vec<String>) {
     (s, expect)
 }
 
+/// `s.f op= y` where `y` is WIDER than the field: either the program is rejected (the result does
+/// not fit the destination) or the store stays inside the field — the neighbours keep their values
+/// and the field holds the wrapped result. One program per (field type, value type, operator).
+fn compound_assign_cases() -> Vec<(String, String, String, String, i128, u32)> {
+    let mut out = vec![];
+    for (ft, fb, vt, v) in [
+        ("u8", 8u32, "u16", 1000i128), ("u8", 8, "u32", 1000), ("u8", 8, "u64", 70000), ("u16", 16, "u32", 70000),
+        ("u16", 16, "u64", 5_000_000_000), ("u32", 32, "u64", 5_000_000_000), ("i8", 8, "i32", 1000), ("i16", 16, "i64", 70000),
+        ("i32", 32, "i64", 5_000_000_000),
+    ] {
+        for op in ["+=", "*=", "|="] {
+            let src = format!(
+                "core :: #mod(\"core\");\nS :: struct {{ g0: {ft}, f: {ft}, g1: {ft}, g2: {ft}, g3: {ft} }};\nmain :: () {{\n    s := S.{{ g0 = 11, f = 3, g1 = 12, g2 = 13, g3 = 14 }};\n    y : {vt} = {v};\n    s.f {op} y;\n    core.println(s.g0);\n    core.println(s.g1);\n    core.println(s.g2);\n    core.println(s.g3);\n    core.println(s.f);\n}}\n"
+            );
+            out.push((ft.to_string(), vt.to_string(), op.to_string(), src, v, fb));
+        }
+    }
+    out
+}
+
 pub fn run(tier: &str, seed: u64, widen: bool) -> Report {
     let mut rep = Report::new(
         "C02",
@@ -456,6 +476,37 @@ pub fn run(tier: &str, seed: u64, widen: bool) -> Report {
         rep.hit("struct-pass-return");
         if !o[0].built || o[0].run_status != Some(0) || got != expect {
             rep.oracle_fail("struct-arg-return", json!({"sizes": chunk, "source": src}), json!({"built": o[0].built, "status": o[0].run_summary(), "lines": got}), json!(expect), "by-value struct argument/return changed a value it should not or lost a byte");
+        }
+    }
+    // 2b. compound assignment of a wider value into a narrow field
+    {
+        let cases = compound_assign_cases();
+        let progs: Vec<e2e::Program> = cases.iter().map(|c| e2e::Program::single(&c.3)).collect();
+        let outs = e2e::run_all(&progs, e2e::Limits::default());
+        for ((ft, vt, op, src, v, fb), o) in cases.iter().zip(outs.iter()) {
+            rep.case(Some(format!("compound:{ft}{op}{vt}")));
+            let input = json!({"field_type": ft, "value_type": vt, "op": op, "source": src});
+            if !o.built {
+                if o.compile_out.contains("panicked at") || !o.compile_out.lines().any(|l| l.starts_with("error")) {
+                    rep.oracle_fail("compound-assign-crashes-compiler", input, json!(o.compile_out.lines().filter(|l| l.contains("panicked") || l.contains("Error")).take(2).collect::<Vec<_>>()), json!("rejected with a diagnostic, or built"), "compound assignment of a wider value crashed the compiler");
+                } else {
+                    rep.hit("compound-assign:rejected");
+                }
+                continue;
+            }
+            rep.hit("compound-assign:accepted");
+            let got: Vec<String> = o.stdout().lines().map(|x| x.trim().to_string()).collect();
+            let m = 1i128 << fb;
+            let raw = match op.as_str() {
+                "+=" => (3 + v).rem_euclid(m),
+                "*=" => (3 * v).rem_euclid(m),
+                _ => (3 | v).rem_euclid(m),
+            };
+            let wrapped = if ft.starts_with('i') && raw >= m / 2 { raw - m } else { raw };
+            let want = vec!["11".to_string(), "12".into(), "13".into(), "14".into(), wrapped.to_string()];
+            if o.run_status != Some(0) || got != want {
+                rep.oracle_fail(&format!("compound-assign-clobbers-neighbours:{ft}<-{vt}"), input, json!(got), json!(want), "`field op= wider value` changed the fields next to it (or lost the result)");
+            }
         }
     }
     // 3. aggregates are copied: generated copy programs vs the CopyLang model
